@@ -55,6 +55,10 @@ func TestVerifC33bConformance(t *testing.T) {
 		"VerifC33bThrice":    VerifC33bThrice,
 		"VerifC33bLong":      VerifC33bLong,
 		"VerifC33bTwin":      VerifC33bTwin,
+
+		"VerifC33bInterrupted":      VerifC33bInterrupted,
+		"VerifC33bForeign":          VerifC33bForeign,
+		"VerifC33bInterruptedTwice": VerifC33bInterruptedTwice,
 	}
 	tmp := t.TempDir()
 	ran, bad := 0, 0
